@@ -1,0 +1,18 @@
+//go:build verif
+
+package dir
+
+import (
+	"github.com/mit-pdos/go-journal/common"
+)
+
+// VerifDecodeDirEnt decodes one on-disk directory entry.
+func VerifDecodeDirEnt(d []byte) (common.Inum, string) {
+	de := decodeDirEnt(d)
+	return de.inum, de.name
+}
+
+// VerifEncodeDirEnt encodes one on-disk directory entry.
+func VerifEncodeDirEnt(inum common.Inum, name string) []byte {
+	return encodeDirEnt(&dirEnt{inum: inum, name: name})
+}
